@@ -127,10 +127,13 @@ theorem C17_deadlock_free {scripts : List (List Op)} (hwb : WB scripts) {c : Cfg
 
 /-- **Unlocking what is not held panics and changes nothing**: inside the critical section of `Unlock`
 with no writer active (or readers active), and inside that of `RUnlock` with no reader active (or a writer
-active), the only successor is the panic, with the lock state untouched. -/
+active), the only successor is the panic, with the lock state untouched and the internal mutex released again
+(code after the repair "release the internal mutex before panicking"). -/
 theorem C17_unlock_unheld_panics (s : Mx) (v : V) :
-    (v.pc = .ulC → (s.writer = false ∨ 0 < s.readers) → mxStep s v = [(s, { v with pc := .dead })]) ∧
-    (v.pc = .ruC → (s.readers = 0 ∨ s.writer = true) → mxStep s v = [(s, { v with pc := .dead })]) := by
+    (v.pc = .ulC → (s.writer = false ∨ 0 < s.readers) →
+      mxStep s v = [({ s with m := false }, { v with pc := .dead })]) ∧
+    (v.pc = .ruC → (s.readers = 0 ∨ s.writer = true) →
+      mxStep s v = [({ s with m := false }, { v with pc := .dead })]) := by
   constructor
   · intro hp h
     simp only [mxStepG, hp, ulCStep]
@@ -176,62 +179,38 @@ theorem C17_monitor_refines_rwlock (s : Mx) (v : V) (s' : Mx) (v' : V) (h : (s',
     (try (first | (obtain ⟨rfl, rfl⟩ := h) | (obtain ⟨hg, rfl, rfl⟩ := h)
           simp_all <;> omega))
 
-/-- **A misuse panic freezes the mutex instead of corrupting it** (arbitrary scripts, any number of goroutines): the
-panicking `Unlock`/`RUnlock` leaves the internal mutex locked (no `defer`), so from a configuration in which some
-goroutine has panicked no transition changes the lock state any more — nothing is granted, nothing is released; the
-holders of that moment stay the holders.  (The harness checks the same on the real object after every recovered
-panic: the counters are the ones before the call and the internal mutex is locked; a mutex that stays usable is probed
-for a grant alongside the known holders.) -/
-theorem C17_panic_freezes_lock_state {scripts : List (List Op)} {c c' : Cfg Mx Th}
-    (hr : Reach sys (initCfg scripts) c) (hd : ∃ t ∈ c.2, t.v.pc = .dead) (hs : Step sys c c') :
-    c.1.m = true ∧ c'.1.m = true ∧ c'.1.writer = c.1.writer ∧ c'.1.readers = c.1.readers := by
+/-- **A misuse panic leaves the mutex as it was — usable** (arbitrary scripts, any number of goroutines, code after the
+repair "release the internal mutex before panicking"): the internal mutex is held exactly while some goroutine is
+inside a critical section of the mutex (`fM`; a panicked goroutine is not), so once nobody is inside one the internal
+mutex is free, whoever has panicked before.  With `C17_unlock_unheld_panics` (the panicking step changes nothing but
+releases the internal mutex) and `C17_no_lost_wakeup` (Φ_W, Φ_R and the accounting hold for arbitrary scripts): after
+any number of recovered misuse panics the mutex grants and releases exactly as if the misused calls had never been
+made.  (The harness: after every recovered panic the counters are the ones before the call, the internal mutex is free,
+and the mutex is probed for a grant alongside the known holders.) -/
+theorem C17_panic_releases_internal_mutex {scripts : List (List Op)} {c : Cfg Mx Th}
+    (hr : Reach sys (initCfg scripts) c) :
+    (if c.1.m then 1 else 0) = sumV fM (views c.2) ∧
+      ((∀ t ∈ c.2, fM t.v = 0) → c.1.m = false) ∧ (∀ v : V, v.pc = .dead → fM v = 0) := by
   have g := ginvC_reach hr
-  obtain ⟨d, hdm, hdp⟩ := hd
-  cases hs with
-  | mk s pre t post s' t' hmem =>
-    have hm := g.hm
-    simp only [views_mid, sumV_mid] at hm
-    -- the dead goroutine is not the one that moves
-    have hne : t.v.pc ≠ .dead := by
-      intro h
-      obtain ⟨⟨pc, rd, wr⟩, script⟩ := t
-      simp only at h; subst h
-      simp [sys, smStepG, mxStepG] at hmem
-    have hfd : fM d.v = 1 := by simp [fM, hdp]
-    have hother : 1 ≤ sumV fM (views pre) + sumV fM (views post) := by
-      simp only [List.mem_append, List.mem_cons] at hdm
-      rcases hdm with h | rfl | h
-      · have := sumV_ge (f := fM) (vs := views pre) (v := d.v) (by simp only [views, List.mem_map]; exact ⟨d, h, rfl⟩)
-        omega
-      · exact absurd hdp hne
-      · have := sumV_ge (f := fM) (vs := views post) (v := d.v) (by simp only [views, List.mem_map]; exact ⟨d, h, rfl⟩)
-        omega
-    have hmt : s.m = true := by
-      cases hsm : s.m with
-      | true => rfl
-      | false => simp [hsm] at hm; omega
-    have hft : fM t.v = 0 := by simp [hmt] at hm; omega
-    rcases smStep_cases hmem with ⟨op, rest, _, _, rfl, _⟩ | ⟨_, hstep, _⟩
-    · exact ⟨hmt, hmt, rfl, rfl⟩
-    · have href := C17_monitor_refines_rwlock s t.v s' t'.v hstep
-      have hm' : s'.m = true := by
-        obtain ⟨⟨pc, rd, wr⟩, script⟩ := t
-        obtain ⟨m, readers, writer, pending, waitR, wakeR, waitW, wakeW⟩ := s
-        simp only at hmt hft hstep; subst hmt
-        cases pc <;> simp [fM] at hft <;>
-          simp [mxStepG, signalW, broadcastR] at hstep <;>
-          (try (split at hstep)) <;> (try simp at hstep) <;>
-          (try (first | (obtain ⟨rfl, _⟩ := hstep; simp) | (obtain ⟨_, rfl, _⟩ := hstep; simp)))
-      refine ⟨hmt, hm', ?_⟩
-      rcases href with h | ⟨h, _⟩ | ⟨h, _⟩ | ⟨h, _⟩ | ⟨h, _⟩
-      · exact h
-      all_goals (simp [fM, h] at hft)
+  refine ⟨g.hm, ?_, fun v hv => by simp [fM, hv]⟩
+  intro h0
+  have hz : sumV fM (views c.2) = 0 := by
+    apply sumV_zero
+    intro v hv
+    simp only [views, List.mem_map] at hv
+    obtain ⟨t, ht, rfl⟩ := hv
+    exact h0 t ht
+  have hm := g.hm
+  rw [hz] at hm
+  cases hmm : c.1.m <;> simp [hmm] at hm ⊢
 
-/-- Non-vacuity: `Unlock` of the unlocked mutex by goroutine 0 panics; goroutine 1 (about to call `Lock`) can still take
-a step — into the call, where it then waits for the internal mutex for ever. -/
+/-- Non-vacuity: `Unlock` of the unlocked mutex by goroutine 0 panics with the internal mutex free again; goroutine 1
+then runs its `Lock` to the end and holds the write lock. -/
 example :
     let c := Conc.runSched sys (initCfg [[.unlock], [.lock]]) [(0, 0), (0, 0), (0, 0)]
-    c.2.map (·.v.pc) = [.dead, .idle] ∧ c.1.m = true ∧ (smStepG true c.1 ⟨V.init, [.lock]⟩).length = 1 := by
+    c.2.map (·.v.pc) = [.dead, .idle] ∧ c.1.m = false ∧
+      (let c' := Conc.runSched sys c [(1, 0), (1, 0), (1, 0), (1, 0)]
+       c'.2.map (·.v.pc) = [.dead, .idle] ∧ c'.1.writer = true ∧ c'.1.m = false ∧ c'.2.map (·.script) = [[], []]) := by
   decide
 
 /-- The code before the repair: `Unlock` on a fresh mutex ran through (and broadcast) instead of
@@ -444,9 +423,9 @@ is the case in which the invariants above do not hold):
    `registerMutex(es)` and of `unregisterMutexes` (`regSection`); in particular not while a goroutine is inside
    `Unlock`/`RUnlock` before its final `unregisterMutexes` (`inRelease`: the lookup and every `StarvingMutex.Unlock`/
    `RUnlock` it issues), and there a StarvingMutex step touches only the object it runs on.
-4. The wrong-mode case: the step in which `StarvingMutex.Unlock`/`RUnlock` panics changes nothing at all (it is the
-   failing guard; `C17_unlock_unheld_panics`), so a wrong-mode `Unlock(x)` leaves the registry and every entity's
-   `(writer, readers)` as before the call, and a wrong-mode panic at the k-th id of `RUnlock(ids…)` leaves the k−1 read
+4. The wrong-mode case: the step in which `StarvingMutex.Unlock`/`RUnlock` panics only releases the internal mutex of
+   that object again (it is the failing guard; `C17_unlock_unheld_panics`), so a wrong-mode `Unlock(x)` leaves the
+   registry and every entity's mutex as before the call, and a wrong-mode panic at the k-th id of `RUnlock(ids…)` leaves the k−1 read
    locks before it released and *all* registrations in place — exactly what the repaired code guarantees (the
    over-counted consumers can never lead to a wrong grant: `C17_dag_misuse_panic_fixed_witness`).
 5. The final `unregisterMutexes` (`unregA`/`runregA`) is entered only by a normal return of the last StarvingMutex
@@ -462,7 +441,7 @@ theorem C17_dag_misuse_panic_preserves_state (s : CSh) (t : CTh) :
     (inRelease t = true → regSection t = false) ∧
     (∀ k s' t', t.ctl = .inner k → (s', t') ∈ Comp.step s t → ∀ o, o ≠ t.cur → s'.heap o = s.heap o) ∧
     (∀ k s' t', t.ctl = .inner k → (s', t') ∈ Comp.step s t → t'.ipc = .dead →
-      s' = s ∧ (t.ipc = .ulC ∨ t.ipc = .ruC)) ∧
+      s' = { s with heap := Dag.upd s.heap t.cur { s.heap t.cur with m := false } } ∧ (t.ipc = .ulC ∨ t.ipc = .ruC)) ∧
     (∀ s' t', (s', t') ∈ Comp.step s t → t.ctl ≠ t'.ctl →
       ((∀ x, t'.ctl = .unregA x → t.ctl = .inner (.ul x) ∧ t.ipc = .idle) ∧
        (∀ xs, t'.ctl = .runregA xs → (t.ctl = .inner (.ru [] xs) ∧ t.ipc = .idle) ∨ (t.ctl = .runlockC xs ∧ xs = [])))) := by
@@ -492,9 +471,8 @@ instead of corrupting state"; any state `s` with `d.Mutex` free, any other gorou
    state is `s` again.
 2. `RUnlock(xs…)` with an id that has no mutex or occurs more often than it is registered: the same.
 3. `Unlock(x)` of a registered entity whose mutex (internal mutex free) is not write-locked or has readers: after its
-   five steps the goroutine has panicked inside `StarvingMutex.Unlock` and the shared state is `s` except that the
-   internal mutex of that one object is locked — registry, consumer counts, `(writer, readers, pending)` and the
-   condition variables of every object are untouched.
+   five steps the goroutine has panicked inside `StarvingMutex.Unlock` and the *entire* shared state is `s` again —
+   registry, consumer counts, every mutex object including its internal mutex (released before the panic).
 4. `RUnlock(xs…)` that passes the lookup (`lookAll` = the objects `o :: os`) but whose first mutex is not read-locked or
    is write-locked: the same, inside `StarvingMutex.RUnlock` of `o` (for a later id see
    `C17_dag_misuse_panic_preserves_state` (4) and `C17_dag_misuse_panic_kth_id_witness`). -/
@@ -506,13 +484,11 @@ theorem C17_dag_misuse_call_preserves_state (s : CSh) (t : CTh) (r : List Dag.DO
       Conc.runSched Comp.sys (s, t :: others) [(0, 0), (0, 0), (0, 0)] = (s, { t with ctl := .dead, script := r } :: others)) ∧
     (∀ x o, t.script = .unlock x :: r → s.ent x = some o → (s.heap o).m = false →
       (0 < (s.heap o).readers ∨ (s.heap o).writer = false) →
-      ∃ t', Conc.runSched Comp.sys (s, t :: others) (List.replicate 5 (0, 0)) =
-          ({ s with heap := Dag.upd s.heap o { s.heap o with m := true } }, t' :: others) ∧
+      ∃ t', Conc.runSched Comp.sys (s, t :: others) (List.replicate 5 (0, 0)) = (s, t' :: others) ∧
         t'.ipc = .dead ∧ t'.script = r) ∧
     (∀ xs o os, t.script = .runlock xs :: r → lookAll s [] xs = some (o :: os) → (s.heap o).m = false →
       ((s.heap o).readers = 0 ∨ (s.heap o).writer = true) →
-      ∃ t', Conc.runSched Comp.sys (s, t :: others) (List.replicate 5 (0, 0)) =
-          ({ s with heap := Dag.upd s.heap o { s.heap o with m := true } }, t' :: others) ∧
+      ∃ t', Conc.runSched Comp.sys (s, t :: others) (List.replicate 5 (0, 0)) = (s, t' :: others) ∧
         t'.ipc = .dead ∧ t'.script = r) :=
   ⟨fun x hs he => call_unlock_unregistered s t x r others hc hs hd he,
    fun xs hs he => call_runlock_lookup s t xs r others hc hs hd he,
@@ -534,7 +510,7 @@ configuration every StarvingMutex object of the DAGMutex satisfies the script-in
 the goroutines' views of it — `writer → readers = 0`, the internal mutex is held by exactly the goroutines inside a
 critical section of that object (a panicked one included), `pendingWriters` and both condition variables are accounted
 for, Φ_W and Φ_R (no lost wake-up) hold.  Together with `C17_dag_misuse_panic_preserves_state` (the registry is written
-only by the registering / unregistering sections): what a misused call leaves behind is a frozen entity at worst, never
+only by the registering / unregistering sections): what a misused call leaves behind is never
 a lock state that grants two holders.  (`C17_dag_misuse_panic_wrong_mode_witness` is a reachable configuration after a
 misuse.) -/
 theorem C17_dag_composed_objects_any_scripts {scripts : List (List Dag.DOp)} {c : Cfg CSh CTh}
@@ -564,14 +540,14 @@ theorem C17_dag_misuse_panic_wrong_mode_witness :
 
 /-- Part (c): a wrong mode at the k-th id.  `RLock(1,2); Lock(3); RUnlock(1,3,2)` passes the lookup (all three are
 registered), releases the read lock of entity 1 (object 0), panics inside `StarvingMutex.RUnlock` of entity 3 (object 2,
-write-locked: its lock state is untouched, its internal mutex stays locked) and never reaches entity 2 (object 1, still
+write-locked: its lock state is untouched, its internal mutex is free again) and never reaches entity 2 (object 1, still
 read-locked): k−1 = 1 read lock released, *all three* registrations in place, `d.Mutex` free. -/
 theorem C17_dag_misuse_panic_kth_id_witness :
     let c := Conc.runSched Comp.sys (Comp.initCfg [[.rlock [1, 2], .lock 3, .runlock [1, 3, 2]]]) (List.replicate 24 (0, 0))
     c.2.map (fun t => (t.ctl, t.ipc)) = [(.inner (.ru [1] [1, 3, 2]), .dead)] ∧
       [1, 2, 3].map c.1.cnt = [1, 1, 1] ∧ [1, 2, 3].map c.1.ent = [some 0, some 1, some 2] ∧
       [0, 1, 2].map (fun o => ((c.1.heap o).readers, (c.1.heap o).writer, (c.1.heap o).m)) =
-        [(0, false, false), (1, false, false), (0, true, true)] ∧ c.1.dm = false := by
+        [(0, false, false), (1, false, false), (0, true, false)] ∧ c.1.dm = false := by
   decide
 
 /-- Non-vacuity: goroutine 0 holds entity 1 for writing and is parked in `RLock` of entity 2, which
@@ -758,9 +734,9 @@ open Hive.Gen.C17Skel in
 /-- The monitor protocol of `Hive/Model/SyncMutex.lean` was written against exactly these skeletons: `Lock`/`RLock` wait in a loop inside the deferred critical section of `f.mutex`; `RUnlock`/`Unlock` release `f.mutex` explicitly and issue `Signal`/`Broadcast` only afterwards. -/
 theorem C17_skeleton_starvingmutex :
     skel_StarvingMutex_RLock = ["lock f.mutex", "defer unlock f.mutex", "if{", "go", "}if", "for{", "call f.readerCond.Wait", "}for", "if{", "close doneChan", "}if"] ∧
-    skel_StarvingMutex_RUnlock = ["lock f.mutex", "if{", "}if", "if{", "}if", "if{", "unlock f.mutex", "call f.writerCond.Signal", "return", "}if", "unlock f.mutex"] ∧
+    skel_StarvingMutex_RUnlock = ["lock f.mutex", "if{", "unlock f.mutex", "}if", "if{", "unlock f.mutex", "}if", "if{", "unlock f.mutex", "call f.writerCond.Signal", "return", "}if", "unlock f.mutex"] ∧
     skel_StarvingMutex_Lock = ["lock f.mutex", "defer unlock f.mutex", "if{", "go", "}if", "for{", "call f.writerCond.Wait", "}for", "if{", "close doneChan", "}if"] ∧
-    skel_StarvingMutex_Unlock = ["lock f.mutex", "if{", "}if", "if{", "}if", "if{", "unlock f.mutex", "call f.readerCond.Broadcast", "return", "}if", "unlock f.mutex", "call f.writerCond.Signal"] := by
+    skel_StarvingMutex_Unlock = ["lock f.mutex", "if{", "unlock f.mutex", "}if", "if{", "unlock f.mutex", "}if", "if{", "unlock f.mutex", "call f.readerCond.Broadcast", "return", "}if", "unlock f.mutex", "call f.writerCond.Signal"] := by
   decide
 
 open Hive.Gen.C17Skel in
